@@ -172,6 +172,125 @@ Args parse_args(const std::string& arg)
 	return a;
 }
 
+struct Obs { std::string ctx; Val v; bool has_mds, has_vgm; size_t song = 0; };
+
+// hist2 (child side): k rotations of the list and repeated exports of one Song object, in this
+// (fresh) process; one token per observation: o=<song>/<ctx>/<m|v|b>/<seq>/<mds>/<vgm>
+std::string h_hist2(const std::string& arg)
+{
+	Args a = parse_args(arg);
+	size_t k = a.songs.size();
+	std::vector<Obs> obs;
+	char ctx[64];
+	// (b) in this process: k rounds, round r compiles the songs in the order r, r+1, ... (mod k),
+	// so that every song is compiled after every rotation prefix of the others
+	for(size_t r = 0; r < k; r++)
+		for(size_t j = 0; j < k; j++)
+		{
+			size_t i = (r + j) % k;
+			snprintf(ctx, sizeof ctx, "round%zu-pos%zu", r, j);
+			{ Obs o{ctx, compile_fresh(a.songs[i], a.dir, a.mode), true, true}; o.song = i; obs.push_back(o); }
+		}
+	// (c) several exports of ONE Song object: MDS,VGM,MDS,VGM and VGM,MDS,VGM on another object,
+	// and MDS/VGM after Song_Validator has played every track
+	for(size_t i = 0; i < k; i++)
+	{
+		for(int variant = 0; variant < 3; variant++)
+		{
+			try
+			{
+				Song song;
+				{
+					Quiet q;
+					load_song(song, a.songs[i], a.dir);
+					if(a.mode >= 1 || variant == 2) { Song_Validator val(song); }
+					if(a.mode >= 2) { Optimizer opt(song); opt.optimize(); Song_Validator val2(song); }
+				}
+				static const int orders[3][4] = {{1, 0, 1, 0}, {0, 1, 0, -1}, {1, 1, 0, 0}};
+				for(int n = 0; n < 4; n++)
+				{
+					int fmt = orders[variant][n];
+					if(fmt < 0) continue;
+					Obs o;
+					snprintf(ctx, sizeof ctx, "same%d-export%d", variant, n + 1);
+					o.ctx = ctx;
+					o.has_mds = fmt == 1;
+					o.has_vgm = fmt == 0;
+					if(fmt == 1) o.v.mds = export_one(song, 1, &o.v.seq);
+					else o.v.vgm = export_one(song, 0);
+					o.song = i; obs.push_back(o);
+				}
+			}
+			catch(InputError&) { Obs o; o.song = i; o.ctx = "same-parse"; o.has_mds = o.has_vgm = true; o.v.seq = o.v.mds = o.v.vgm = "exc:InputError"; o.song = i; obs.push_back(o); }
+			catch(std::exception& e) { Obs o; o.song = i; o.ctx = "same-parse"; o.has_mds = o.has_vgm = true; o.v.seq = o.v.mds = o.v.vgm = std::string("exc:") + exc_name(e); o.song = i; obs.push_back(o); }
+		}
+	}
+	std::string out = "r2";
+	for(const Obs& o : obs)
+		out += " o=" + std::to_string(o.song) + "/" + o.ctx + "/" + (o.has_mds && o.has_vgm ? "b" : o.has_mds ? "m" : "v") + "/" +
+			(o.v.seq.empty() ? "-" : o.v.seq) + "/" + (o.v.mds.empty() ? "-" : o.v.mds) + "/" + (o.v.vgm.empty() ? "-" : o.v.vgm);
+	return out;
+}
+
+std::string run_child(const std::string& exe, const std::string& envs, const Args& a, const char* cmdname, const std::vector<std::string>& songs)
+{
+	static int counter = 0;
+	char name[64];
+	snprintf(name, sizeof name, "c16_rq_%d_%d.txt", (int)getpid(), counter++);
+	std::string path = a.dir + "/" + name;
+	FILE* fp = fopen(path.c_str(), "wb");
+	if(!fp) return "";
+	std::string dhex;
+	{
+		static const char* d = "0123456789abcdef";
+		for(unsigned char c : a.dir) { dhex.push_back(d[c >> 4]); dhex.push_back(d[c & 15]); }
+	}
+	fprintf(fp, "%s D:%s%s", cmdname, dhex.c_str(), a.mode == 2 ? " O" : a.mode == 1 ? " V" : "");
+	for(const std::string& s : songs) fprintf(fp, " %s", s.c_str());
+	fprintf(fp, "\n");
+	fclose(fp);
+	std::string cmd = envs + " '" + exe + "' '" + path + "' 0 100 2>/dev/null";
+	FILE* p = popen(cmd.c_str(), "r");
+	std::string txt;
+	if(p)
+	{
+		char buf[4096];
+		size_t n;
+		while((n = fread(buf, 1, sizeof buf, p)) > 0) txt.append(buf, n);
+		pclose(p);
+	}
+	unlink(path.c_str());
+	size_t nl = txt.find('\n');
+	if(nl != std::string::npos) txt = txt.substr(0, nl);
+	return txt;
+}
+
+std::vector<Obs> child_rounds(const std::string& exe, const std::string& envs, const Args& a, std::string* why)
+{
+	std::vector<Obs> out;
+	std::string txt = run_child(exe, envs, a, "hist2", a.songs);
+	if(txt.compare(0, 2, "r2") != 0) { *why = txt.empty() ? "no-answer" : txt.substr(0, 60); return out; }
+	for(const std::string& t : split_ws(txt.substr(2)))
+	{
+		if(t.compare(0, 2, "o=") != 0) continue;
+		std::vector<std::string> f;
+		std::istringstream is(t.substr(2));
+		std::string x;
+		while(std::getline(is, x, '/')) f.push_back(x);
+		if(f.size() != 6) continue;
+		Obs o;
+		o.song = strtoul(f[0].c_str(), 0, 10);
+		o.ctx = f[1];
+		o.has_mds = f[2] != "v";
+		o.has_vgm = f[2] != "m";
+		o.v.seq = f[3] == "-" ? "" : f[3];
+		o.v.mds = f[4] == "-" ? "" : f[4];
+		o.v.vgm = f[5] == "-" ? "" : f[5];
+		out.push_back(o);
+	}
+	return out;
+}
+
 std::string h_hist1(const std::string& arg)
 {
 	Args a = parse_args(arg);
@@ -228,7 +347,6 @@ std::vector<Val> child(const std::string& exe, const std::string& envs, const Ar
 	return out;
 }
 
-struct Obs { std::string ctx; Val v; bool has_mds, has_vgm; };
 
 std::string h_hist(const std::string& arg)
 {
@@ -281,48 +399,13 @@ std::string h_hist(const std::string& arg)
 			}
 			else notes += " plain-failed:" + why;
 		}
-	// (b) in this process: k rounds, round r compiles the songs in the order r, r+1, ... (mod k),
-	// so that every song is compiled after every rotation prefix of the others
-	for(size_t r = 0; r < k; r++)
-		for(size_t j = 0; j < k; j++)
-		{
-			size_t i = (r + j) % k;
-			snprintf(ctx, sizeof ctx, "round%zu-pos%zu", r, j);
-			obs[i].push_back({ctx, compile_fresh(a.songs[i], a.dir, a.mode), true, true});
-		}
-	// (c) several exports of ONE Song object: MDS,VGM,MDS,VGM and VGM,MDS,VGM on another object,
-	// and MDS/VGM after Song_Validator has played every track
-	for(size_t i = 0; i < k; i++)
+	// (b)+(c) in ONE further fresh process (so that a request never depends on what the harness
+	// process served before): rounds and repeated exports of one Song object, see h_hist2
 	{
-		for(int variant = 0; variant < 3; variant++)
-		{
-			try
-			{
-				Song song;
-				{
-					Quiet q;
-					load_song(song, a.songs[i], a.dir);
-					if(a.mode >= 1 || variant == 2) { Song_Validator val(song); }
-					if(a.mode >= 2) { Optimizer opt(song); opt.optimize(); Song_Validator val2(song); }
-				}
-				static const int orders[3][4] = {{1, 0, 1, 0}, {0, 1, 0, -1}, {1, 1, 0, 0}};
-				for(int n = 0; n < 4; n++)
-				{
-					int fmt = orders[variant][n];
-					if(fmt < 0) continue;
-					Obs o;
-					snprintf(ctx, sizeof ctx, "same%d-export%d", variant, n + 1);
-					o.ctx = ctx;
-					o.has_mds = fmt == 1;
-					o.has_vgm = fmt == 0;
-					if(fmt == 1) o.v.mds = export_one(song, 1, &o.v.seq);
-					else o.v.vgm = export_one(song, 0);
-					obs[i].push_back(o);
-				}
-			}
-			catch(InputError&) { Obs o; o.ctx = "same-parse"; o.has_mds = o.has_vgm = true; o.v.seq = o.v.mds = o.v.vgm = "exc:InputError"; obs[i].push_back(o); }
-			catch(std::exception& e) { Obs o; o.ctx = "same-parse"; o.has_mds = o.has_vgm = true; o.v.seq = o.v.mds = o.v.vgm = std::string("exc:") + exc_name(e); obs[i].push_back(o); }
-		}
+		std::string why;
+		std::vector<Obs> more = child_rounds(self, asan_base + "190", a, &why);
+		if(more.empty()) notes += " rounds-failed:" + why;
+		for(const Obs& o : more) if(o.song < k) obs[o.song].push_back(o);
 	}
 	char buf[128];
 	snprintf(buf, sizeof buf, "hist n=%zu asan=%d plain=%d", k, asan_ok, plain_ok);
@@ -412,5 +495,6 @@ std::string h_linktwice(const std::string& arg)
 
 HANDLER("hist", h_hist);
 HANDLER("hist1", h_hist1);
+HANDLER("hist2", h_hist2);
 HANDLER("pcmtab", h_pcmtab);
 HANDLER("linktwice", h_linktwice);
